@@ -117,6 +117,32 @@ def gen_script(rng, max_msg):
 CANON = re.compile(r"(?:[^\"]*_)?[0-9a-f]+_0x[0-9a-f]+")   # "<origin id>_<counter>_<peer address>", no origin part for numeric ids
 
 
+def _is_shutdown_error(m):
+    return (isinstance(m, dict) and isinstance(m.get("error"), dict) and isinstance(m["error"].get("data"), dict)
+            and m["error"]["data"].get("reason") == "peer shuts down")
+
+
+def unordered_shutdown_runs(outputs):
+    """When an owner leaves, its in-flight requests are answered in the order of its routing table, i.e. by the hash of ids that
+    contain heap addresses: the order inside a run of consecutive "peer shuts down" answers on one connection is not part of
+    the script's outcome. Each such run is put into a canonical order."""
+    res = []
+    for msgs in outputs:
+        o, i = [], 0
+        while i < len(msgs):
+            if _is_shutdown_error(msgs[i]):
+                j = i
+                while j < len(msgs) and _is_shutdown_error(msgs[j]):
+                    j += 1
+                o.extend(sorted(msgs[i:j], key=lambda m: json.dumps(m.get("id"))))
+                i = j
+            else:
+                o.append(msgs[i])
+                i += 1
+        res.append(o)
+    return res
+
+
 def execute(binary, conns, steps, policy, rng, timeout=60):
     """-> dict(outputs=[list of canonical messages per conn], parsed=[...], crash=None|key)"""
     sim = Sim(binary, timeout=timeout)
@@ -126,16 +152,28 @@ def execute(binary, conns, steps, policy, rng, timeout=60):
     try:
         if policy.get("scribble"):
             sim.scribble(policy["scribble"])
+        # connections are made in the order of their first step, right before it; a policy may let the first bytes (and more)
+        # be queued before the daemon gets to accept the connection, so that they are consumed by the read done from accept
         for t in conns:
-            ep = {"raw": "jet", "uds": "uds", "ws": "ws"}[t]
-            fds.append(sim.connect(ep, ("u",) if t == "uds" else ("4", "127.0.0.1", 5000 + len(fds))))
+            fds.append(None)
             decs.append(wire.WsDecoder() if t == "ws" else wire.RawDecoder())
             outputs.append([])
             fwd.append([])
-        sim.settle()
+
+        def ensure_connected(c):
+            if fds[c] is not None:
+                return False
+            t = conns[c]
+            ep = {"raw": "jet", "uds": "uds", "ws": "ws"}[t]
+            fds[c] = sim.connect(ep, ("u",) if t == "uds" else ("4", "127.0.0.1", 5000 + c))
+            if not (policy.get("preaccept") and rng.random() < policy["preaccept"]):
+                sim.settle()
+            return True
 
         def pump():
             for i, fd in enumerate(fds):
+                if fd is None:
+                    continue
                 d = sim.drain(fd)
                 for kind, payload, obj, _w in decs[i].feed(d["data"]):
                     if kind == "msg" and isinstance(obj, dict) and "method" in obj and "id" in obj:
@@ -148,7 +186,14 @@ def execute(binary, conns, steps, policy, rng, timeout=60):
                         outputs[i].append([kind, payload.hex()])
                 if d["closed"] and (not outputs[i] or outputs[i][-1] != "<closed>"):
                     outputs[i].append("<closed>")
+                if d["closed"] and closed_at[i] is None:
+                    closed_at[i] = cur[0]
 
+        closed_at = [None] * len(conns)       # the step after which the daemon was seen to have released the connection
+        cur = [-1]
+        fin_early = {}
+        out["closed_at"] = closed_at
+        out["fin_early"] = fin_early
         ended = [False] * len(conns)
         pre = [b""] * len(conns)        # bytes of this connection's next unit that were delivered early
         # index of the next step per connection, for pre-delivery
@@ -159,8 +204,10 @@ def execute(binary, conns, steps, policy, rng, timeout=60):
         replied = [0] * len(conns)
         for i, st in enumerate(steps):
             c = st["c"]
+            cur[0] = i
             if ended[c]:
                 continue
+            ensure_connected(c)
             if st.get("eof"):
                 sim.eof(fds[c])
                 ended[c] = True
@@ -201,18 +248,23 @@ def execute(binary, conns, steps, policy, rng, timeout=60):
                 # the FIN arrives together with the last bytes: one readiness event carries both
                 sim.eof(fds[c])
                 ended[c] = True
+                fin_early[c] = i
             sim.settle(**policy.get("batch", {}))
             if policy.get("spurious") and rng.random() < policy["spurious"]:
                 sim.poll(order=[fds[c]], spurious=fds[c])
+            pump()
+        cur[0] = len(steps)
         pump()
         # tear down one connection after the other: who still sees whose removes is then a matter of the script, not of kernel choice
-        for fd in fds:
-            sim.eof(fd)
+        for c in range(len(fds)):
+            cur[0] = len(steps) + 1 + c
+            ensure_connected(c)
+            sim.eof(fds[c])
             sim.settle()
             pump()
         txt = json.dumps(outputs)
         txt = CANON.sub(lambda m: seen.setdefault(m.group(0), "<routed-%d>" % len(seen)), txt)
-        out["outputs"] = json.loads(txt)
+        out["outputs"] = unordered_shutdown_runs(json.loads(txt))
     except DaemonDied:
         out["crash"] = "died"
     except DaemonExited as e:
@@ -230,16 +282,16 @@ POLICIES = [
     dict(name="bytes+polls", chunks="bytes", poll_between=1.0),
     dict(name="k2", chunks=2, poll_between=0.5, fin_coalesce=0.8),
     dict(name="k3+coalesce", chunks=3, coalesce=0.7, fin_coalesce=0.7),
-    dict(name="k5", chunks=5, poll_between=0.3, coalesce=0.3),
+    dict(name="k5", chunks=5, poll_between=0.3, coalesce=0.3, preaccept=0.7),
     dict(name="k7+scribble}", chunks=7, scribble=2, coalesce=0.5),
     dict(name="rand+scribble-quote", chunks="rand", scribble=3, poll_between=0.5),
     dict(name="whole+coalesce+scribble-tail", chunks="whole", coalesce=0.9, scribble=4),
     dict(name="whole+scribble-ff", chunks="whole", scribble=6, fin_coalesce=1.0),
-    dict(name="whole+scribble-1", chunks="whole", scribble=7, coalesce=0.5),
+    dict(name="whole+scribble-1+preaccept", chunks="whole", scribble=7, coalesce=0.5, preaccept=1.0),
     dict(name="rand+scribble-rand", chunks="rand", scribble=5, coalesce=0.5, poll_between=0.5),
     dict(name="rand+batch1", chunks="rand", batch={"max": 1}, coalesce=0.4, fin_coalesce=0.7),
-    dict(name="rand+shuffle", chunks="rand", batch={"shuffle": 77}, coalesce=0.4, poll_between=0.4),
-    dict(name="whole+spurious", chunks="whole", spurious=0.3, fin_coalesce=1.0),
+    dict(name="rand+shuffle", chunks="rand", batch={"shuffle": 77}, coalesce=0.4, poll_between=0.4, preaccept=0.5),
+    dict(name="whole+spurious+preaccept", chunks="whole", spurious=0.3, fin_coalesce=1.0, preaccept=1.0),
     dict(name="bytes+scribble-brace", chunks="bytes", scribble=2, poll_between=0.2),
     dict(name="k2+coalesce+scribble-zero", chunks=2, coalesce=0.8, scribble=1),
 ]
@@ -277,6 +329,18 @@ def segdiff(case, res):
         res.sigs.add(("variant", pol["name"], min(nmsg // 10, 6), tuple(sorted(set(conns)))))
         if var["crash"]:
             res.viol.append(("crash/" + str(var["crash"]), "policy %s\n%s" % (pol["name"], var["detail"])))
+            return
+        def same_release(v, r, early):
+            # a FIN that was delivered together with the data of step k ends the connection in step k; in the reference run the
+            # FIN is step k+1 of its own (unless the data of step k already ended the connection)
+            for ci, (a, b) in enumerate(zip(v, r)):
+                if a == b or (early.get(ci) == a and b == a + 1):
+                    continue
+                return False
+            return True
+        if var["outputs"] == ref["outputs"] and not same_release(var.get("closed_at"), ref.get("closed_at"), var.get("fin_early", {})):
+            res.viol.append(("seg/connection-end-depends-on-segmentation", "policy %s: connections were released after steps %r, in the reference run after steps %r" %
+                             (pol["name"], var.get("closed_at"), ref.get("closed_at"))))
             return
         if var["outputs"] != ref["outputs"]:
             which = "scribble" if pol.get("scribble") else "segmentation"
@@ -330,6 +394,7 @@ def realdiff(case, res):
     if "inconclusive" in out:
         res.inconclusive = out["inconclusive"]
         return
+    out["outputs"] = unordered_shutdown_runs(out["outputs"])
     res.stats["real_kernel_runs"] += 1
     res.stats["real_kernel_messages"] += sum(len(o) for o in out["outputs"])
     if out.get("exit") not in (0,):
